@@ -291,7 +291,7 @@ def run(tier, seed, replay=None):
         want = spec_accepts(v) if kind == "i" else spec_str(v)
         if model != (("ok", want) if want is not None else ("ple", None)):
             run.fail("spec-vs-ref", {"value": (dec(v) if kind == "i" else str(v))[:50]}, {"model": out, "ref": want})
-    common_translated_tie(run, ["normalize_piece_length", "get_piece_length"])
+    common_translated_tie(run, ["normalize_piece_length", "normalize_piece_length__str", "get_piece_length"])
     return run.finish()
 
 
